@@ -237,6 +237,7 @@ fn finalize(ctx: &Ctx, rep: Report, wall: f64) -> i32 {
     let mut known_hits = 0u64;
     let mut printed = 0;
     let mut lines = vec![];
+    let mut pending: Vec<(String, &'static str, Case, Value)> = vec![];
     for (i, (count, _order, v)) in classes.iter().enumerate() {
         let key = v.case.key();
         let class_key = format!("class:{}:{}", v.sub, v.class);
@@ -261,6 +262,15 @@ fn finalize(ctx: &Ctx, rep: Report, wall: f64) -> i32 {
             if props::replayable(v.sub) && props::case_replayable(&v.case) {
                 let r1 = props::replay_case(ctx, v.sub, &v.case);
                 let r2 = props::replay_case(ctx, v.sub, &v.case);
+                if r1.is_empty() && r2.is_empty() {
+                    // seen in the 16-thread sweep, not reproducible in a single-threaded replay:
+                    // candidate for a result that depends on what other threads are doing
+                    // (shared mutable state in the library); decided after the loop
+                    pending.push((path.clone(), v.sub, v.case.clone(), j));
+                    eprintln!("  [{}] {} x{}: {} -- does not reproduce sequentially; will be re-tried with concurrent callers", v.sub, v.class, count, v.case.key());
+                    printed += 1;
+                    continue;
+                }
                 if r1 != r2 || r1.is_empty() {
                     eprintln!("ENGINE-FAILURE replay of {} diverges or does not reproduce: {:?} vs {:?}", path, r1, r2);
                     return 3;
@@ -271,6 +281,25 @@ fn finalize(ctx: &Ctx, rep: Report, wall: f64) -> i32 {
                       match &v.case { Case::Input(b) => lossy(b), c => c.key() },
                       trunc(&v.expected, 200), trunc(&v.observed, 200));
             printed += 1;
+        }
+    }
+    if !pending.is_empty() {
+        let items: Vec<(&'static str, Case)> = pending.iter().map(|p| (p.1, p.2.clone())).collect();
+        let hit = confirm_concurrently(ctx, &items, Duration::from_secs(20));
+        for (k, (path, sub, case, j)) in pending.iter().enumerate() {
+            if hit[k] {
+                let mut j = j.clone();
+                j["schedule_dependent"] = json!("the case holds in a single-threaded replay and fails when other threads call the library at the same time (free-running threads, not an enumerated schedule): the library keeps shared mutable state");
+                std::fs::write(path, serde_json::to_string_pretty(&j).unwrap()).expect("write replay");
+                lines.push(format!("VIOLATION property={} replay={}", ctx.prop, path));
+                eprintln!("  [{}] {}: reproduces only under concurrent callers (shared mutable state)", sub, case.key());
+            } else if hit.iter().any(|h| *h) {
+                // the verdict stands on the confirmed cases; this one is only noted
+                eprintln!("  [{}] {}: seen in the parallel sweep, not reproduced again within the budget (another case of this run was)", sub, case.key());
+            } else {
+                eprintln!("ENGINE-FAILURE replay of {} does not reproduce, neither sequentially nor with concurrent callers", path);
+                return 3;
+            }
         }
     }
     // evidence
@@ -331,6 +360,40 @@ fn finalize(ctx: &Ctx, rep: Report, wall: f64) -> i32 {
     }
 }
 
+/// Re-executes the given cases from 8 free-running threads at once (each thread walks the list
+/// from a different offset, mixed with a fixed background load of other keys) until every case
+/// has shown its violation again or the budget is used up.  This is NOT an enumeration of
+/// schedules: it only turns "seen once in the parallel sweep" into "seen again on demand" for
+/// results that depend on concurrent callers; without it such a finding could neither be
+/// replayed nor distinguished from a defect of the checker.
+fn confirm_concurrently(ctx: &Ctx, items: &[(&'static str, Case)], budget: Duration) -> Vec<bool> {
+    use std::sync::atomic::{AtomicBool, Ordering};
+    let hit: Vec<AtomicBool> = items.iter().map(|_| AtomicBool::new(false)).collect();
+    let mut load: Vec<(&'static str, Case)> = items.to_vec();
+    let sub0 = items[0].0;
+    for bg in ["triple:en", "triple:pl", "triple:mk", "triple:und-Latn-AM", "triple:zh-TW", "triple:sr-ME", "triple:en-GB", "triple:und-Cyrl"] {
+        load.push((sub0, Case::Text(bg.to_string())));
+    }
+    let t0 = Instant::now();
+    std::thread::scope(|sc| {
+        for th in 0..8usize {
+            let (hit, load) = (&hit, &load);
+            sc.spawn(move || {
+                let mut i = th * 3;
+                while t0.elapsed() < budget && !hit.iter().all(|h| h.load(Ordering::Relaxed)) {
+                    let k = i % load.len();
+                    i += 1 + th % 3;
+                    let r = props::replay_case(ctx, load[k].0, &load[k].1);
+                    if k < hit.len() && !r.is_empty() {
+                        hit[k].store(true, Ordering::Relaxed);
+                    }
+                }
+            });
+        }
+    });
+    hit.into_iter().map(|h| h.into_inner()).collect()
+}
+
 fn trunc(s: &str, n: usize) -> String {
     if s.len() <= n {
         s.to_string()
@@ -373,6 +436,14 @@ fn replay(path: &str) -> i32 {
     if r1 != r2 {
         eprintln!("ENGINE-FAILURE divergent replay");
         return 3;
+    }
+    if r1.is_empty() && v.get("schedule_dependent").is_some() {
+        let hit = confirm_concurrently(&ctx, &[(sub_static, case.clone())], Duration::from_secs(30));
+        if hit[0] {
+            println!("replay: holds single-threaded, fails with concurrent callers (shared mutable state)");
+            println!("VIOLATION property={} replay={}", prop, path);
+            return 1;
+        }
     }
     if r1.is_empty() {
         println!("replay: {} holds on this case now", prop);
